@@ -271,6 +271,8 @@ class SegmentTensor(PolytopeTensor):
         y = w_r**2 + w_i**2
         x_zero = np.isclose(x, 0, atol=EQ_TOL_ABS)
         y_zero = np.isclose(y, 0, atol=EQ_TOL_ABS)
+        # x and y are products of four coordinates: the tolerance must not be smaller than their rounding errors
+        tol = tol + 64 * np.finfo(float).eps * y if tol > 0 else tol
         return result & (~x_zero | ~y_zero) & (0 <= x + tol) & (x <= y + tol)
 
     def intersect(
